@@ -76,6 +76,16 @@ def text_special_forms():
             b"aaa://host:3868;transport=tcp", b"AAA://HOST", b"aaas://h;protocol=diameter", b"a" * 63 + b".", b"%41", b"a/../b", b"host:3868", b"\"q\""]
 
 
+def uri_special_forms():
+    """DiameterURI values a library might want to take apart (RFC 6733 4.3.1 grammar: scheme, FQDN, port, parameters): the type is
+    an OctetString on the wire - every value is accepted and is the octets it was given, grammatical or not, text or not"""
+    return [b"aaa://host.example.com:3868;transport=tcp;protocol=diameter", b"aaas://host.example.com:5658;transport=tcp", b"aaa://h;transport=tcp:3868",
+            b"aaas://h;protocol=diameter:1", b"aaa://;:", b"aaa://", b"aaas://", b"aaa:", b"aaa", b"aaa://h:", b"aaa://h:x", b"aaa://h:99999", b"aaa://h:0",
+            b"aaa://[::1]:3868", b"aaa://[::1", b"://", b";", b":", b";:", b":;", b"aaa://h;", b"aaa://h;transport", b"aaa://h;=;", b"aaa://h;;", b"aaa://:3868",
+            b"http://h", b"AAA://h:3868", b"aaa://h:3868;transport=sctp;protocol=radius;x=y", "aaa://h\u00e9.example".encode(), b"aaa://h\xe9.example",
+            b"aaa://\xff", b"\xff\xfe", b"\xe9", b"aaa://h\0:1", b"aaa://h:3868;transport=tcp\xc3"]
+
+
 def gen_leaf(r, kind=None, big=False):
     k = kind or r.choice(LEAF_KINDS)
     if k in ("a4", "ip4"):
